@@ -3,7 +3,7 @@ from ..lockprops import VERSIONS, make_jobs, replay_lock, run_lock_job
 
 ID = "C05"
 LEVEL = "exploration"
-PROFILE = {"garbage": 0.1, "ctl": 0.15, "semicolon": False, "sleep": True, "ota": True, "unicode": 0.2, "lag": True}
+PROFILE = {"reload": 0.04, "garbage": 0.1, "ctl": 0.15, "semicolon": False, "sleep": True, "ota": True, "unicode": 0.2, "lag": True}
 TZS = ["UTC0", "XXX-5:30", "YYY3:30", "ZZZ-14", "CET-1CEST,M3.5.0,M10.5.0/3", "AAA12"]
 
 
